@@ -837,6 +837,8 @@ func (u *Unit) contractEffects(ct *Contract, eff *loopEffects, ptys map[string]t
 }
 
 func (u *Unit) havocLoop(st *State, fr *Frame, li *loopInfo) {
+	hv0 := len(st.AllHavocs)
+	defer func() { u.settleHavocs(st, hv0) }()
 	eff := &loopEffects{cells: map[*ssa.Alloc]bool{}, localHeap: map[*ssa.Alloc]bool{}, keys: map[string]bool{}, iters: map[ssa.Value]bool{}, desigs: map[string]bool{}, ghosts: map[string]bool{}}
 	u.collectEffects(fr.Fn, li.blocks, eff, 0)
 	// cells
